@@ -59,13 +59,72 @@ func entityRefAgreement(r *core.Run) {
 		if len(sp) == 0 {
 			return
 		}
-		if len(entityLookups(info, fd.Body)) == 0 {
+		// a lookup in the function itself or in a same-package function it calls
+		has := false
+		for _, d := range core.TreeDecls(pk, fd, 2) {
+			if d.Body != nil && len(entityLookups(info, d.Body)) > 0 {
+				has = true
+			}
+		}
+		if !has {
 			return
 		}
 		for _, v := range sp {
 			sites = append(sites, site{fd, v})
 		}
 	})
+	// the resolvers are the functions handed the entity reference of a service annotation: an argument
+	// `<x>.Entity` whose <x> is a ServiceType_StateEntityCommand / ServiceType_StateEntityQuery of the source API
+	{
+		handed := map[types.Object]map[int]bool{}
+		core.AllFuncDecls(pk, func(fd *ast.FuncDecl) {
+			if fd.Body == nil {
+				return
+			}
+			ast.Inspect(fd.Body, func(n ast.Node) bool {
+				c, ok := n.(*ast.CallExpr)
+				if !ok {
+					return true
+				}
+				fn := core.CalleeFunc(info, c)
+				if fn == nil || fn.Pkg() != pk.Types {
+					return true
+				}
+				for ai, a := range c.Args {
+					sel, ok := core.Unparen(a).(*ast.SelectorExpr)
+					if !ok || sel.Sel.Name != "Entity" {
+						continue
+					}
+					ts := core.TypeStr(info.TypeOf(sel.X))
+					if strings.HasSuffix(ts, "ServiceType_StateEntityCommand") || strings.HasSuffix(ts, "ServiceType_StateEntityQuery") {
+						if handed[fn.Origin()] == nil {
+							handed[fn.Origin()] = map[int]bool{}
+						}
+						handed[fn.Origin()][ai] = true
+					}
+				}
+				return true
+			})
+		})
+		var top []site
+		for _, s := range sites {
+			idxs := handed[info.Defs[s.fd.Name]]
+			if idxs == nil {
+				continue
+			}
+			// which parameter is it
+			k := 0
+			for _, pf := range s.fd.Type.Params.List {
+				for _, nm := range pf.Names {
+					if info.Defs[nm] == types.Object(s.param) && idxs[k] {
+						top = append(top, s)
+					}
+					k++
+				}
+			}
+		}
+		sites = top
+	}
 	for _, s := range sites {
 		for _, w := range []struct {
 			world  int
